@@ -15,6 +15,7 @@ RULE = (
     "every pair 1 <= m <= n <= Mmax (48 / 96): kernels.fftconvolve == np.convolve (float64), TimeSeries.correlate == full correlation at "
     "lags -(m-1)..n-1; the same identities on series of 131073, 262144 and 300001 samples (thorough: up to 2**20) against a float64 FFT, and a 70 001 x 513 convolution/correlation against direct float64 sums. Non-trivial = n >= 2; lengths whose FFT size is odd or not equal to n are counted separately"
 )
+SCALE_LANE = 'series of 131073, 262144, 300001 samples (thorough up to 2**20) against a float64 FFT; a 70 001 x 513 convolution and correlation against direct float64 sums'
 ASSUMPTIONS = [
     "absolute tolerance 16*eps32*log2(n+1)*||x||_2 per element (for convolution/correlation ||a||_2*||b||_2): float32 FFT rounding, calibrated (observed/limit is recorded)",
     "data values come from five classes drawn from VERIF_SEED; the enumerated dimension is the length (and the kernel length)",
